@@ -28,9 +28,10 @@ using namespace vh;
 using namespace c04;
 using ref::LD;
 
-// NeighMoving built WITHOUT anisotropy coefficients hard-wires a 2-D distance (BiTargetCheckDistance ctor): in a 1-D
-// space every such kriging reads one coordinate past the SpacePoint (ASan heap-buffer-overflow). Finding, see report.
-// Set to true to keep the generator away from that input class (1-D + no coefficients).
+// NeighMoving built WITHOUT anisotropy coefficients used to hard-wire a 2-D distance (BiTargetCheckDistance ctor): in a
+// 1-D space every such kriging read one coordinate past the SpacePoint (ASan heap-buffer-overflow, key
+// crash:asan-heap-buffer-overflow:SpacePoint::getCoord). Fixed in /repo 7983a8b7b. If it comes back, set to true to keep
+// the generator away from that input class (1-D + no coefficients).
 static const bool AVOID_NEIGHMOVING_NDIM2_1D = false || getenv("C04_DEV_AVOID") != nullptr; // env: developer runs only
 
 // -----------------------------------------------------------------------------------------------------------------
@@ -266,8 +267,7 @@ static void pairUniqueMoving(Rng& r, Ctx& c)
   // moving neighbourhood variants that must all hold every sample: huge isotropic radius / undefined radius /
   // anisotropic + rotated ellipse that still contains the field / ball-tree candidates with nmaxi >= n
   int mv         = (int)(r.next() % 6);
-  // 1-D without coefficients is a known crash (see AVOID_NEIGHMOVING_NDIM2_1D): visited, but only in 1 such case out of 5
-  if (k.ndim == 1 && (mv == 0 || mv == 1 || mv == 5) && (AVOID_NEIGHMOVING_NDIM2_1D || !r.coin(0.2))) mv = 4;
+  if (AVOID_NEIGHMOVING_NDIM2_1D && k.ndim == 1 && (mv == 0 || mv == 1 || mv == 5)) mv = 4;
   int n          = k.data.pts.n;
   int nmaxi      = n + (int)(r.next() % 5);
   bool ball      = (mv == 3 || mv == 5);
@@ -306,7 +306,8 @@ static void pairUniqueMoving(Rng& r, Ctx& c)
   KOut oU = runKriging(k.data, tU.get(), k.ms, nu.get());
   KOut oM = runKriging(k.data, tM.get(), k.ms, nm.get());
   std::string what = fmt("n=%d neq=%d kappa=%.3g drift=%s moving=%s nmaxi=%d", n, cd.neq, cd.kappa, k.driftName.c_str(), MV[mv], nmaxi);
-  // two ball-tree input classes have a known cause of their own (see report): one flat key and one oracle family each
+  // two ball-tree input classes had a cause of their own (masked samples taken from the tree; KNN refusing nmaxi > n;
+  // fixed in /repo 6dfd4d242 and 9c3595c2c): they keep one flat key and one oracle family each
   bool clsGtN = ball && nmaxi > n, clsSel = ball && !clsGtN && k.selMode != 0;
   std::string key = std::string("C04:uniq-moving:") + (ball ? (clsGtN ? "ball-nmaxi-gt-n" : (clsSel ? "ball-with-selection" : "ball")) : "scan");
   std::string pfx = clsGtN ? "umx-ball-gtn" : (clsSel ? "umx-ball-sel" : "um");
